@@ -5,6 +5,7 @@ record = {seqid, source, featuretype, start, end, score, strand, frame  (all str
           attrs: [[key, [values...]], ...], extra: [str, ...]}
 """
 PLAIN = "abcdefghijklmnopqrstuvwxyzABCDEFGHIJKLMNOPQRSTUVWXYZ0123456789_.:-+|/()[]*#@!~'"
+UNICODE_BLANKS = ["\u00a0", "\u2003", "\u202f", "\u3000"]
 NONASCII = ["é", "ß", "漢", "Ω", "ї", "\U0001F9EC", "µ", "ñ"]
 # reserved set of the GFF3 grammar (written as upper-case percent-escapes)
 RESERVED_LIST = ["\t", "\n", "\r", "%", ";", "=", "&", ","] + [chr(i) for i in (0, 1, 7, 8, 11, 12, 27, 31)] + [chr(127)]
@@ -37,6 +38,10 @@ def value(rng, escaped=True, blanks=True, nonascii=True, maxlen=10):
             # characters that str.splitlines() treats as line boundaries but file reading does not (interior only:
             # str.strip() also treats them as whitespace)
             out.append("\u2028" if not escaped else rng.choice(["\u2028", "\u2029", "\x85"]))
+        elif r < 0.79 and nonascii and i < n - 1:
+            # blanks beyond ASCII (no-break, em, narrow no-break, ideographic): ordinary characters to the grammar, also at
+            # the start of a value or list item; never last (str.strip() takes them for whitespace: see F-C08-1)
+            out.append(rng.choice(UNICODE_BLANKS))
         elif r < 0.86 and nonascii:
             out.append(rng.choice(NONASCII))
         elif r < 0.96 and escaped:
@@ -135,7 +140,9 @@ def extra(rng):
     if r < 0.75:
         return []
     n = 1 if r < 0.9 else 2
-    return [rng.choice(["x", "extra col", "12", "a=b;c", "é", "."]) for _ in range(n)]
+    # extra columns are opaque text, whatever they look like (numbers, JSON documents, quotes)
+    return [rng.choice(["x", "extra col", "12", "a=b;c", "é", ".", "7", "2.5", "true", "null", "{}", "0", '"hit"', '["a","b"]', "[]"])
+            for _ in range(n)]
 
 
 def record(rng, D, **kw):
